@@ -331,10 +331,16 @@ func restCheck(c *Ctx) {
 			reqs = nil
 			mu.Unlock()
 			ctx, cancel := context.WithTimeout(context.Background(), 3*time.Second)
-			_, lerr := cl.List(ctx, metav1.ListOptions{})
-			w, werr := cl.Watch(ctx, metav1.ListOptions{ResourceVersion: "7", Watch: true})
-			if w != nil {
-				w.Stop()
+			// the same client is used for several lists and watches, as a
+			// controller does across relists and reconnects
+			var lerr, werr error
+			for _, rv := range []string{"7", "12", "31"} {
+				_, lerr = cl.List(ctx, metav1.ListOptions{})
+				var w watch.Interface
+				w, werr = cl.Watch(ctx, metav1.ListOptions{ResourceVersion: rv, Watch: true})
+				if w != nil {
+					w.Stop()
+				}
 			}
 			cancel()
 			c.Rep.Evaluations++
@@ -348,22 +354,25 @@ func restCheck(c *Ctx) {
 			wantList := e.prefix + nsPart + "/" + e.res
 			wantWatch := e.prefix + "/watch" + nsPart + "/" + e.res
 			replay := map[string]interface{}{"package": e.name, "namespace": ns, "requests": fmt.Sprint(got), "list_error": fmt.Sprint(lerr), "watch_error": fmt.Sprint(werr)}
-			if len(got) != 2 {
-				c.Violation("", fmt.Sprintf("types/%s client (namespace %q) issued %d requests for one list and one watch", e.name, ns, len(got)), replay)
+			if len(got) != 6 {
+				c.Violation("", fmt.Sprintf("types/%s client (namespace %q) issued %d requests for three lists and three watches", e.name, ns, len(got)), replay)
 				continue
 			}
-			if got[0].path != wantList {
-				c.Violation("", fmt.Sprintf("types/%s client (namespace %q) lists %s, expected %s", e.name, ns, got[0].path, wantList), replay)
+			for i, rv := range []string{"7", "12", "31"} {
+				l, wq := got[2*i], got[2*i+1]
+				if l.path != wantList || l.query != "" {
+					c.Violation("", fmt.Sprintf("types/%s client (namespace %q) list %d requests %s?%s, expected %s", e.name, ns, i+1, l.path, l.query, wantList), replay)
+				}
+				if wq.path != wantWatch {
+					c.Violation("", fmt.Sprintf("types/%s client (namespace %q) watch %d requests %s, expected %s", e.name, ns, i+1, wq.path, wantWatch), replay)
+				}
+				q := strings.Split(wq.query, "&")
+				sort.Strings(q)
+				if strings.Join(q, "&") != "resourceVersion="+rv+"&watch=true" {
+					c.Violation("", fmt.Sprintf("types/%s client watch %d query is %q, expected resourceVersion=%s&watch=true", e.name, i+1, wq.query, rv), replay)
+				}
 			}
-			if got[1].path != wantWatch {
-				c.Violation("", fmt.Sprintf("types/%s client (namespace %q) watches %s, expected %s", e.name, ns, got[1].path, wantWatch), replay)
-			}
-			q := strings.Split(got[1].query, "&")
-			sort.Strings(q)
-			if strings.Join(q, "&") != "resourceVersion=7&watch=true" {
-				c.Violation("", fmt.Sprintf("types/%s client watch query is %q, expected resourceVersion=7&watch=true", e.name, got[1].query), replay)
-			}
-			rows = append(rows, fmt.Sprintf("%s ns=%q: %s | %s?%s", e.name, ns, got[0].path, got[1].path, got[1].query))
+			rows = append(rows, fmt.Sprintf("%s ns=%q: %s | %s?%s", e.name, ns, got[0].path, got[5].path, got[5].query))
 			c.DistinctCase("rest" + e.name + ns)
 		}
 	}
